@@ -9,7 +9,7 @@ import z3
 
 from pyvc.prop import Unit, Bounded
 from pyvc.values import SV, INT, BOOL, FRAC, DEC, FLOAT, BEAT, TNum, TNT, TSeq, TIntEnum, term, is_sym, fresh, fresh_term, coerce
-from pyvc.execu import HObj, NTVal, PyRaise, Unsupported, _wrap_field
+from pyvc.execu import HObj, NTVal, PyRaise, Unsupported, _wrap_field, assigned_from
 from pyvc import models as M, stdmodels as SM
 from contracts import engine as EN
 
@@ -509,8 +509,8 @@ class CoalesceWarps(Unit):
         def using(ex_, fr, i, vals):
             return [dom(i), dom(i - 1), dom(i + 1)]
 
-        slots = [field_slot("starts", lambda ex_, fr: fr.locals["warp_starts"], "data", SEQ),
-                 field_slot("ends", lambda ex_, fr: fr.locals["warp_ends"], "data", SEQ)]
+        slots = [field_slot("starts", lambda ex_, fr: fr.locals[assigned_from(fr.fi, "BeatValues", 0)], "data", SEQ),
+                 field_slot("ends", lambda ex_, fr: fr.locals[assigned_from(fr.fi, "BeatValues", 1)], "data", SEQ)]
         ex.loop_specs[(self.LQ, 0)] = LoopSpec(slots, inv, using)
         kind, r = ex.run_function(ex.closure_of(self.LQ, owner=e.TimingEngine), [eng])
         if kind == "raise":
